@@ -120,7 +120,8 @@ def cluster_check(run, case, toks):
 def check(run):
     import genlib
     genlib.validate_eam_builder_fs(run, n=run.n(40, 400))
-    import genlib
+    # the key of a Finnis-Sinclair density entry ("A->B" reads as from = A, to = B): the regenerated species_func against the real line parser
+    genlib.validate_cfg_logic(run, "fs_species", n=run.n(300, 4000))
     genlib.validate_tabulation_objects(run, kinds=("setfl_fs", "tabeam_fs"), n=run.n(6, 50))
     genlib.validate_eam_writer(run, "tabeam_fs", n=run.n(10, 100))
     genlib.validate_eam_writer(run, "setfl_fs", n=run.n(10, 100))
